@@ -144,6 +144,9 @@ def check_case(ctx, case, pending):
                                               "need_addr": False, "closure_only": True}, o))
         return
     ctx.count("applied")
+    if getattr(o["rec"], "order_issue", None):
+        ctx.violation("C05:cache-ordering-contradicts-the-layout", "the block ordering the rewrite starts with is not the physical one: %s; which "
+                      "zero-sized blocks remain is decided with it" % o["rec"].order_issue, case)
     try:
         rt = roundtrip(o["B"])
     except Exception as e:  # noqa: BLE001
@@ -395,6 +398,12 @@ def run(ctx):
         check_case(ctx, json.load(open(f)), pending)
     for c in LE.load_corpus():
         ctx.count("corpus")
+        check_case(ctx, c, pending)
+    # modules that already hold a zero-sized block (left by an earlier rewrite) at the address of the block behind it
+    from props import c02
+
+    for c in c02.empty_block_cases():
+        ctx.count("empty-block-in-the-input")
         check_case(ctx, c, pending)
     for _ in range(ctx.budget(500, 12000)):
         case = special_blocks(add_encodings(emodify.gen_case(ctx.rng), ctx.rng), ctx.rng)
